@@ -55,6 +55,9 @@ int main() {
   { using PFB = dispatch::Proxy_Function_Base; SZ("PFB", PFB) OFF("PFB_types", PFB, m_types) OFF("PFB_arity", PFB, m_arity) OFF("PFB_has_arith", PFB, m_has_arithmetic_param) }
   SZ("Inline_Map_Node", eval::Inline_Map_AST_Node<eval::Noop_Tracer>) SZ("Inline_Array_Node", eval::Inline_Array_AST_Node<eval::Noop_Tracer>) SZ("Assign_Decl_Node", eval::Assign_Decl_AST_Node<eval::Noop_Tracer>) SZ("Constant_Node", eval::Constant_AST_Node<eval::Noop_Tracer>)
   { using CS = Type_Conversions::Conversion_Saves; SZ("Conversion_Saves", CS) OFF("CS_enabled", CS, enabled) OFF("CS_saves", CS, saves) }
+  { const char *pn[] = {"Ternary_Cond","Logical_Or","Logical_And","Bitwise_Or","Bitwise_Xor","Bitwise_And","Equality","Comparison","Shift","Addition","Multiplication","Prefix"};
+    Operator_Precedence pv[] = {Operator_Precedence::Ternary_Cond,Operator_Precedence::Logical_Or,Operator_Precedence::Logical_And,Operator_Precedence::Bitwise_Or,Operator_Precedence::Bitwise_Xor,Operator_Precedence::Bitwise_And,Operator_Precedence::Equality,Operator_Precedence::Comparison,Operator_Precedence::Shift,Operator_Precedence::Addition,Operator_Precedence::Multiplication,Operator_Precedence::Prefix};
+    for (int i = 0; i < 12; i++) printf("#define PREC_%s %d\n", pn[i], static_cast<int>(pv[i])); }
   SZ("File_Position", File_Position) SZ("Parse_Location", Parse_Location)
   SZ("std_string", std::string) SZ("std_vector", std::vector<int>) SZ("std_shared_ptr", std::shared_ptr<int>)
   static_assert(sizeof(std::string) == 32 && sizeof(std::vector<int>) == 24 && sizeof(std::shared_ptr<int>) == 16, "libstdc++ layouts the C models rely on");
